@@ -17,6 +17,7 @@ DECIDES = ('the value reaching lru_cache(maxsize=...) is an int for every value 
 NOT_DECIDED = 'numerical equality of results across configurations (span functions, evaluator variants, normalised vs raw knot ranges); pickling of workers; process scheduling.'
 TECHNIQUE = 'static kind analysis, signature/key-set agreement, branch equivalence, axis tags'
 DECIDES += (' [ABSTRACT INTERPRETATION] EV3: default and alternative evaluators compute every derivative cell from the same control points; AG52: serial and parallel voxel fill return one flag per voxel in voxel order with the same predicate arguments, for grid sizes not divisible by the process count and for both option spellings; VX3: voxelize hands every element its own grid and points; KS2: every knot-vector setter stores the given knots when normalize_kv is False and normalize(given) otherwise; FD2: no sample-size getter truncates.')
+DECIDES += (' DG2: the domain getter.')
 
 SPAN_FUNCS = ('helpers.find_span_linear', 'helpers.find_span_binsearch')
 EVALUATORS = {'CurveEvaluator': 1, 'CurveEvaluatorRational': 1, 'CurveEvaluator2': 1, 'SurfaceEvaluator': 2, 'SurfaceEvaluatorRational': 2,
